@@ -1,0 +1,7 @@
+//go:build !verif
+
+package seat_manager
+
+func verifGate(point string, seatID int) {}
+
+func verifSeq(seatID int) {}
